@@ -32,7 +32,7 @@ signal.signal(signal.SIGXFSZ, signal.SIG_IGN)
 resource.setrlimit(resource.RLIMIT_FSIZE, (k, k))
 try:
     if kind == "system":
-        sp.build_system_dic(sys.argv[4], [sys.argv[5]], sys.argv[6], "")
+        sp.build_system_dic(sys.argv[4], sys.argv[5].split("\n"), sys.argv[6], "")
     else:
         sp.build_user_dic(sys.argv[4], [sys.argv[5]], sys.argv[6], "")
 except BaseException as e:
@@ -52,10 +52,10 @@ def one(kind, case, k, binary, stage):
     if os.path.exists(out):
         os.remove(out)
     if kind == "cli":
-        cmd = [sys.executable, "-c", CHILD_CLI, str(k), binary, "build", "-m", os.path.join(d, "matrix.def"), "-o", out, os.path.join(d, "lex.csv")]
+        cmd = [sys.executable, "-c", CHILD_CLI, str(k), binary, "build", "-m", os.path.join(d, "matrix.def"), "-o", out] + [os.path.join(d, f) for f in case.get("lex_files", ["lex.csv"])]
         ref, L = os.path.join(d, "ref_system.dic"), case["system_len"]
     elif kind == "py-system":
-        cmd = [sys.executable, "-c", CHILD_PY, str(k), stage, "system", os.path.join(d, "matrix.def"), os.path.join(d, "lex.csv"), out]
+        cmd = [sys.executable, "-c", CHILD_PY, str(k), stage, "system", os.path.join(d, "matrix.def"), "\n".join(os.path.join(d, f) for f in case.get("lex_files", ["lex.csv"])), out]
         ref, L = os.path.join(d, "ref_system.dic"), case["system_len"]
     else:
         cmd = [sys.executable, "-c", CHILD_PY, str(k), stage, "user", os.path.join(d, "ref_system.dic"), os.path.join(d, "user.csv"), out]
@@ -88,16 +88,24 @@ def one(kind, case, k, binary, stage):
 def main():
     path, binary, stage = sys.argv[1:4]
     jobs, outp = 16, "buildsink-results.json"
+    full_only = False
     a = sys.argv[4:]
     while a:
         if a[0] == "--jobs":
             jobs = int(a[1]); a = a[2:]
         elif a[0] == "--out":
             outp = a[1]; a = a[2:]
+        elif a[0] == "--full-only":
+            full_only = True; a = a[1:]
         else:
             a = a[1:]
     with open(path, encoding="utf-8") as f:
         cases = [json.loads(l) for l in f if l.strip()]
+    if full_only:
+        # only limits at or beyond the end of the output: the front ends must produce the reference bytes
+        for c in cases:
+            c["offsets"] = [k for k in c["offsets"] if k >= c["system_len"]][:1] or [c["system_len"] + 1]
+            c["user_offsets"] = [k for k in c["user_offsets"] if k >= c["user_len"]][:1] if c["user_len"] else []
     work = []
     for c in cases:
         for k in c["offsets"]:
